@@ -10,7 +10,8 @@ SPEC = {
     "lean_modules": ["Honeycomb.Props.C04", "Honeycomb.Props.C04Cells", "Honeycomb.Props.C04Cells2"],
     "required_theorems": ["C04_oneSew2_effect", "C04_oneUnsew2_effect", "C04_twoSew2_both", "C04_twoSew2_left", "C04_twoSew2_right",
                           "C04_twoSew2_free", "C04_twoUnsew2_effect", "C04_twoSew2_refuses", "C04_same_cell_value_is_kept",
-                          "C04_oneSew2_cells", "C04_oneUnsew2_cells", "C04_twoSew2_cells", "C04_twoUnsew2_cells"],
+                          "C04_oneSew2_cells", "C04_oneUnsew2_cells", "C04_twoSew2_cells", "C04_twoUnsew2_cells",
+                          "C04_twoSew2_cells_free", "C04_twoSew2_cells_left", "C04_twoSew2_cells_right"],
     "trusted_base": [
         "Lean 4.33 kernel; axioms propext, Classical.choice, Quot.sound only",
         "hand-written model (Model/Ops.lean mergeS/splitS/mergeAttrs, Model/Ops2.lean sews) tied to /repo by the differential run with "
@@ -24,11 +25,10 @@ SPEC = {
             "cells carries merge*(values) at its id; ids that stopped designating a cell are empty; cells with unchanged dart set keep "
             "their value; unsew mirrored; BadGeometry refusal recomputed exactly. distinct_nontrivial = distinct implementation transcripts.",
     "not_proved": [
-        "identification of the computed identifiers with cells is PROVED for 1-sew/1-unsew (C04_oneSew2_cells, C04_oneUnsew2_cells: "
-        "new cell = union of the two old cells, new id = min of the old ids, every other cell unchanged) and for the 2-sew of two "
-        "darts that both have a successor (C04_twoSew2_cells: two unions; ids = minima under the property's proviso) and for every arm "
-        "of 2-unsew (C04_twoUnsew2_cells: old partition = new one with the two pairs united, every computed id = minimum of its cell); "
-        "for the three degenerate 2-sew arms (a dart without successor) it is evaluated by the oracle only",
+        "(nothing left at this level) identification of the computed identifiers with cells is PROVED for every operation of the property: "
+        "1-sew/1-unsew (C04_oneSew2_cells, C04_oneUnsew2_cells), all four arms of 2-sew (C04_twoSew2_cells under the property's proviso "
+        "for the minima, C04_twoSew2_cells_free/_left/_right) and every arm of 2-unsew (C04_twoUnsew2_cells): new cell = union of the "
+        "old cells, every other cell unchanged, every computed id = minimum of its cell",
         "D2 was a genuine defect (merge v v on coinciding ids), repaired by a fix: commit in /repo; the theorem "
         "C04_same_cell_value_is_kept describes the repaired behaviour",
     ],
